@@ -27,15 +27,15 @@ var NoObj = Obj{"none", 0}
 
 // Event is one call or return event of a recorded history.
 type Event struct {
-	K   string `json:"k"`  // "c" call | "r" return
-	G   int    `json:"g"`  // goroutine 1..ng
-	Op  string `json:"op"` // operation (both on call and return)
-	ID  string `json:"id"`
-	O   Obj    `json:"o"`
-	E   string `json:"e"`    // expiry class of a stored entry
-	Res any    `json:"res"`  // result (return events)
-	Dmp [][]any `json:"dmp"` // DebugDump result: [id, [id,serial], class] per entry
-	Dc  []string `json:"dc"` // DebugDump result: ids whose command key is listed
+	K     string   `json:"k"`  // "c" call | "r" return
+	G     int      `json:"g"`  // goroutine 1..ng
+	Op    string   `json:"op"` // operation (both on call and return)
+	ID    string   `json:"id"`
+	O     Obj      `json:"o"`
+	E     string   `json:"e"`   // expiry class of a stored entry
+	Res   any      `json:"res"` // result (return events)
+	Dmp   [][]any  `json:"dmp"` // DebugDump result: [id, [id,serial], class] per entry
+	Dc    []string `json:"dc"`  // DebugDump result: ids whose command key is listed
 	stamp int64
 }
 
